@@ -187,6 +187,13 @@ theorem c19_gen_local_formatters (z : Zone) (dt : DateTime) (f : Fmt) (short : B
       | f, short => formatText (localtime z dt.timestamp) f short :=
   Main.c19_gen_local_formatters z dt f short
 
+/-- **Generated libc glue** (source/posix/time.c): `aws_gmtime`, `aws_localtime`, `aws_timegm` are each exactly one
+call of `gmtime_r`, `localtime_r`, `timegm` on the caller's own buffers — the conversions the model stands for, and
+re-entrant because only the `_r` forms (no libc-internal static `struct tm`) are used. -/
+theorem c19_gen_time_glue :
+    Gen.Date.gmtimeCallee = "gmtime_r" ∧ Gen.Date.localtimeCallee = "localtime_r" ∧ Gen.Date.timegmCallee = "timegm" :=
+  Main.c19_gen_time_glue
+
 /-- **Generated month table.**  The compare chain of `get_month_number_from_str` maps each of the twelve
 names `strftime` emits for `%b` to its own month number. -/
 theorem c19_gen_month_table : ∀ m : Fin 12, monthNumber (monthName (m.val : Int) ++ [32]) = some m.val :=
